@@ -310,5 +310,7 @@ def run(ctx):
     from . import c02
     ctx.do(c02.r2_1)
     ctx.do(c02.r2_4)
+    from . import c13
+    ctx.do(c13.r13_6)
     ctx.note("R11.5 (reconcile never lowers next_uid; UID state committed) is decided by C02 rules R2.1/R2.4")
     ctx.trust("frozen table of persistent operations: " + ", ".join(k for k, _, _ in OPS))
